@@ -50,6 +50,14 @@ theorem facts_reconnect_cannot_complete :
     batchSourceMethods = ["PendingBatchSnapshot"] ∧
     "MarkBatchComplete" ∉ batchCleanerMethods ++ batchSourceMethods := by decide
 
+/-- `HandleAccountSpend` completes the staged batch exactly in the `nil` case of `Store.PendingBatch()` (which
+is `DB.PendingBatchSnapshot`), and the real `BatchCleaner.DeletePendingBatch` is `DB.DeletePendingBatch` – the
+shapes `spendPendingClause` and `reconnect` mirror -/
+theorem facts_spend_clause :
+    spendSwitch = [("ErrNoPendingBatch", "no"), ("nil", "MarkBatchComplete"), ("default", "no")] ∧
+    accountStorePendingBatchCalls = ["s.DB.PendingBatchSnapshot"] ∧
+    fundingDeletePendingBatchCalls = ["m.cfg.DB.DeletePendingBatch"] := by decide
+
 /-! ## single operations -/
 
 /-- **Staging never changes what the trader sees** – whether the call succeeds or fails. -/
